@@ -468,6 +468,7 @@ func TestWorker(t *testing.T) {
 			}
 			_ = json.Unmarshal(spec.Replay, &rp)
 			_ = afero.WriteFile(memfs, "/gsc20.yaml", []byte(c20scenarioYAML), 0o644)
+			_ = afero.WriteFile(memfs, "/gsc19.yaml", []byte(c19grpcScenarioYAML), 0o644)
 			r := &c20run{cell: rp.C20}
 			e.Scenario = r.scenario
 			e.Opts.Bound = rp.C20.Bound
